@@ -50,6 +50,11 @@ CHECKS["C17"] = ("TLC explores SockLinesImpl (the _read_buffer chunk list, every
                  "lines; random streams with chunks of 1..256 bytes are judged the same way.",
                  "5 C17", "Trusted: the scripted socket file stands for the OS; SockLines.tla; TLC.")
 
+CHECKS["C14"] = ("TLC explores WritersImpl (registry, lazily opened and buffered path files, streams, custom writers; every "
+                 "interleaving of add/remove/write/flush/teardown) against the delivery/flush/teardown contract; behaviours are "
+                 "replayed on the real builder with real FileWriter objects and TLC compares the bytes read back after every action.",
+                 "5 C14", "Trusted: a second file handle shows what is durably in a file; the driver's own rendering of a statement; TLC.")
+
 NOT_YET = {}
 
 
